@@ -2034,6 +2034,14 @@ func c19AppendSeries(fn *ssa.Function, tm *Termer, idx int, list string) (*c19Ap
 			}
 			continue
 		}
+		// an empty composite literal `T{}`: a slice of a fresh array of length 0
+		if sl, isSl := f.(*ssa.Slice); isSl && !l.Blocks[sl.Block()] {
+			if al, isAl := sl.X.(*ssa.Alloc); isAl {
+				if arr, isArr := deref(al.Type()).Underlying().(*types.Array); isArr && arr.Len() == 0 {
+					continue
+				}
+			}
+		}
 		ap, isApp := c19IsBuiltinCall(f, "append")
 		if !isApp || !l.Blocks[ap.Block()] || len(ap.Call.Args) != 2 || !(inWeb(ap.Call.Args[0]) || c19StripCT(ap.Call.Args[0]) == ssa.Value(hp)) {
 			return nil, "the series also receives " + tm.Of(f).String()
